@@ -117,9 +117,9 @@ fn vm_arm_push_pop_state_pos() {
     assert!(m.global_states.pos == pos);
 }
 
-/// Delay arm: with the cell size taken from the prototype's delay table entry the arm selects, the arm returns in
-/// `dst` what the WASM host returns and leaves the same state words.  (WHICH table entry it selects is known
-/// finding F5: the index on `delaysizes_pos_stack` is never advanced, so it is always entry 0.)
+/// Delay arm: the arm takes the ring-buffer length from the entry of the function's delay-size table that the
+/// INSTRUCTION names (finding F5, repaired: it used to be entry 0 for every delay of a function), and with that
+/// length it returns in `dst` what the WASM host returns and leaves the same state words.
 #[kani::proof]
 #[kani::unwind(3)]
 #[kani::stub(std::vec::Vec::resize, resize_never)]
@@ -131,11 +131,17 @@ fn vm_arm_delay_equals_wasm() {
     let dst: Reg = kani::any();
     let src: Reg = kani::any();
     let time: Reg = kani::any();
-    let len: u64 = kani::any();
+    // a two-entry delay-size table and a symbolic index into it
+    let len0: u64 = kani::any();
+    let len1: u64 = kani::any();
+    let idx: u8 = kani::any();
+    kani::assume(idx < 2);
+    let len = if idx == 0 { len0 } else { len1 };
     kani::assume(len >= 1 && pos <= N && len <= N as u64 && pos + 2 + len as usize <= N);
     kani::assume((bp as usize) < N && bp as usize + (dst as usize) < N && bp as usize + (src as usize) < N && bp as usize + (time as usize) < N);
-    let mut m = machine(words, pos, stack, bp, len);
-    m.arm_delay(dst, src, time, 0);
+    let mut m = machine(words, pos, stack, bp, 0);
+    m.fnproto = FuncProto { delay_sizes: vec![len0, len1] };
+    m.arm_delay(dst, src, time, idx, 0);
     let i = stack[bp as usize + src as usize];
     let t = stack[bp as usize + time as usize];
     let mut ws = WasmStorage::default();
@@ -147,5 +153,5 @@ fn vm_arm_delay_equals_wasm() {
     kani::assume(j < N);
     assert!(m.global_states.rawdata[j] == ws.data[j]);
     assert!(m.stack[j] == if j == bp as usize + dst as usize { w_res.to_bits() } else { stack[j] });
-    kani::cover!(len > 2 && pos > 0 && bp > 0 && dst != src);
+    kani::cover!(len > 2 && pos > 0 && bp > 0 && dst != src && idx == 1 && len0 != len1);
 }
